@@ -29,8 +29,9 @@ theorem load_cases (t : Task) (s s' : St) (lh : String) (st lim : Nat) (lr : Loa
        (se = false ∧ e = false ∧
          ((sortBlks bs = [] ∧ lr = .panic) ∨
           ∃ first rest, sortBlks bs = first :: rest ∧
-            ((badParent first lh = true ∧ lr = .reorg) ∨
-             (badParent first lh = false ∧ lr = .blocks (first :: rest)))))) := by
+            ((linked (first :: rest) = false ∧ lr = .err) ∨
+             (linked (first :: rest) = true ∧ badParent first lh = true ∧ lr = .reorg) ∨
+             (linked (first :: rest) = true ∧ badParent first lh = false ∧ lr = .blocks (first :: rest)))))) := by
   unfold load at h
   cases hg : load.go (parts t.batch t.conc st lim) s [] false false with
   | mk bs r1 =>
@@ -56,17 +57,23 @@ theorem load_cases (t : Task) (s s' : St) (lh : String) (st lim : Nat) (lr : Loa
       | cons first rest =>
         rw [hsb] at h
         simp only [] at h
+        cases hlk : linked (first :: rest) with
+        | false =>
+          simp only [hlk, Bool.not_false, ↓reduceIte, Prod.mk.injEq] at h
+          exact ⟨bs, false, false, by rw [← h.2], .inr (.inr ⟨rfl, rfl, .inr ⟨first, rest, hsb, .inl ⟨hlk, h.1.symm⟩⟩⟩)⟩
+        | true =>
+        simp only [hlk, Bool.not_true, Bool.false_eq_true, ↓reduceIte] at h
         cases hbp : badParent first lh with
         | true =>
           have hbp' := hbp
           unfold badParent at hbp
           simp only [hbp, ↓reduceIte, Prod.mk.injEq] at h
-          refine ⟨bs, false, false, by rw [← h.2], .inr (.inr ⟨rfl, rfl, .inr ⟨first, rest, hsb, .inl ⟨hbp', h.1.symm⟩⟩⟩)⟩
+          exact ⟨bs, false, false, by rw [← h.2], .inr (.inr ⟨rfl, rfl, .inr ⟨first, rest, hsb, .inr (.inl ⟨hlk, hbp', h.1.symm⟩)⟩⟩)⟩
         | false =>
           have hbp' := hbp
           unfold badParent at hbp
           simp only [hbp, Bool.false_eq_true, ↓reduceIte, Prod.mk.injEq] at h
-          refine ⟨bs, false, false, by rw [← h.2], .inr (.inr ⟨rfl, rfl, .inr ⟨first, rest, hsb, .inr ⟨hbp', h.1.symm⟩⟩⟩)⟩
+          exact ⟨bs, false, false, by rw [← h.2], .inr (.inr ⟨rfl, rfl, .inr ⟨first, rest, hsb, .inr (.inr ⟨hlk, hbp', h.1.symm⟩)⟩⟩)⟩
 
 theorem load_same (t : Task) (s : St) (lh : String) (st lim : Nat) :
     Same s (load t s lh st lim).2 := by
